@@ -1,32 +1,24 @@
 #!/usr/bin/env python3
-"""writes MANIFEST.json from the table below (kept here so it is edited in one place)"""
+"""writes MANIFEST.json: one claimed check per manifest.d/Cxx.json ({text, note, technique, ref, [na_reason]});
+every other property is listed under not_applicable (reason from manifest.d/Cxx.na.txt when present)."""
 import json, os
 HERE = os.path.dirname(os.path.dirname(os.path.abspath(__file__)))
 BASE_CMD = "cd /repo && /venv/bin/python -m pytest -ra -q -p no:cacheprovider --timeout=900 --continue-on-collection-errors"
+DEFAULT_NA = "check not built yet (design in DESIGN.md §6); not claimed until its quick command is green on the clean tree and catches its seeded changes"
 
-CLAIMED = {
- "C02": dict(
-   text="Machine-checked Lean 4 theorems (any ordered field, any dimension, any mask): lattice-only shifts, half-cell fractional coordinates, lattice-shift invariance away from ties, idempotence, orthogonal-cell shortest image; the model is tied to pbc.py by a differential correspondence in exact rational arithmetic under a margin guard plus exact monitors of the proved statements on the real output.",
-   note="np.linalg.inv (two-sided inverse) and np.rint (nearest, half-even at ±1/2, odd) are contracts; float64≈ℝ validated by correspondence, not proved; model hand-written (Pms/Model/Pbc.lean).",
-   technique="Lean 4 proof over ordered fields + differential correspondence (exact ℚ driver)", ref="§6 C02"),
- "C12": dict(
-   text="Lean 4 theorems (Mathlib HasDerivAt over ℝ) that the s1/s2 formulas REGENERATED from hessians.py on every run are d/dr and d²/dr² of the documented Lennard-Jones, inverse-power-law (real exponent) and harmonic/Hertz (real exponent inside contact, integer exponent everywhere) potentials for all parameters; cutoff term and selector table decided; translation validated numerically against the real methods; failing-input search against 40-digit derivatives.",
-   note="translator expression printer trusted but numerically validated each run; float64 pow/div ≈ ℝ is a contract; documented potentials transcribed by hand from docs/hessian.md.",
-   technique="Lean 4 proof (HasDerivAt identities) over source-regenerated terms + translation validation", ref="§6 C12"),
- "C08": dict(
-   text="Lean 4: the 120 closed forms, REGENERATED from spherical_harmonics.py as exact rational data on every run, are proved equal to the orthonormal Condon–Shortley Y_lm (defined in Lean from Rodrigues' formula) identically in both angles (generic soundness lemma + kernel-evaluated decision over the whole table, which also fixes the order m=−l..l); conjugation symmetry, 2π-periodicity and the delegated l>10 branch under the library contract are theorems; Unsöld's identity is a decided polynomial identity for l≤12; dispatcher and delegated-call source are decided against the regenerated text. Extraction validated numerically every run; failing-input search against an independent reference.",
-   note="Y_lm is defined in Pms/Props/C08.lean; translator table extractor trusted but validated numerically; np.sin/cos/exp/sqrt float64 and scipy sph_harm(_y)=Y_lm are contracts (l>10 exercised numerically against mpmath).",
-   technique="Lean 4 proof (generic entry soundness + decide +kernel over regenerated table) + translation validation", ref="§6 C08"),
-}
-NOT_BUILT = {}
 
 def main():
     props = [json.loads(l) for l in open(os.path.join(HERE, "properties.jsonl"))]
-    checks, na = [], []
+    checks, na, claimed = [], [], []
+    tr = []
     for p in props:
         pid = p["id"]
-        if pid in CLAIMED:
-            c = CLAIMED[pid]
+        f = os.path.join(HERE, "manifest.d", pid + ".json")
+        if os.path.exists(f):
+            c = json.load(open(f))
+            claimed.append(pid)
+            if c.get("translator"):
+                tr.append(pid)
             checks.append({
                 "property_id": pid,
                 "quick_cmd": f"./check {pid} --tier quick",
@@ -34,28 +26,30 @@ def main():
                 "evidence_file": f"evidence/{pid}.json",
                 "replay_cmd_template": f"./check {pid} --replay {{path}}",
                 "engine": "lean-proofs+correspondence",
-                "level_claimed": {"category": "proof", "text": c["text"], "design_ref": c["ref"]},
+                "level_claimed": {"category": "proof", "text": c["text"], "design_ref": c.get("ref", "§6 " + pid)},
                 "level_note": c["note"],
                 "technique": c["technique"],
             })
         else:
-            na.append({"property_id": pid, "reason": NOT_BUILT.get(pid, "check not built yet in this session (design in DESIGN.md §6); not claimed until its quick command is green on the clean tree and catches its mutants")})
+            r = os.path.join(HERE, "manifest.d", pid + ".na.txt")
+            na.append({"property_id": pid, "reason": open(r).read().strip() if os.path.exists(r) else DEFAULT_NA})
     m = {
         "version": 1,
         "setup_cmd": "./check --setup",
         "hooks": {"guard": "PYMATTERSIM_VERIF", "enable": "no guarded source changes exist; checks observe public return values, files and argument arrays only",
                   "baseline_off_cmd": BASE_CMD, "source_commits": [], "add_only": True},
         "engines": [
-            {"name": "lean-proofs", "path": "lean/", "serves_properties": sorted(CLAIMED), "kind_free_text": "Lean 4 + Mathlib theorems about executable models; lake build + #print axioms audit"},
-            {"name": "pms2lean-translator", "path": "translator/pms2lean.py", "serves_properties": [], "kind_free_text": "Python ast -> Lean tables/terms regenerated from /repo on every run"},
-            {"name": "correspondence-harness", "path": "harness/", "serves_properties": sorted(CLAIMED), "kind_free_text": "differential testing of the compiled Lean model driver against the real pymattersim code"},
+            {"name": "lean-proofs", "path": "lean/", "serves_properties": claimed, "kind_free_text": "Lean 4 + Mathlib theorems about executable models; lake build + #print axioms audit"},
+            {"name": "pms2lean-translator", "path": "translator/", "serves_properties": tr, "kind_free_text": "Python ast -> Lean tables/terms regenerated from /repo on every run"},
+            {"name": "correspondence-harness", "path": "harness/", "serves_properties": claimed, "kind_free_text": "differential testing of the compiled Lean model driver against the real pymattersim code"},
         ],
         "checks": checks,
         "not_applicable": na,
-        "notes": "Single entry point ./check <id>. Exit 0 ok / 1 VIOLATION / 2 infrastructure. See DESIGN.md.",
+        "notes": "Single entry point ./check <id>. Exit 0 ok / 1 VIOLATION / 2 infrastructure. See DESIGN.md; per-property build notes in design/Cxx.md.",
     }
     json.dump(m, open(os.path.join(HERE, "MANIFEST.json"), "w"), indent=1)
     print("claimed", len(checks), "not_applicable", len(na))
+
 
 if __name__ == "__main__":
     main()
